@@ -18,7 +18,7 @@ ASSUMPTIONS = ["lentil's physical constants differ from CODATA by < 1e-6 relativ
 EXHAUSTIVE = True
 PLAN = {'quick': {'gen': 4}, 'thorough': {'gen': 8, 'tests': 1, 'docs': 1}}
 REQUIRED_BUCKETS = ['wave-triple', 'flux-triple', 'spectrum.to:density', 'spectrum.to:unitless', 'spectrum.to:flux-roundtrip', 'spectrum.to:multi', 'spectrum.sample:unit', 'blackbody:converted',
-                    'planck:radiance', 'planck:exitance', 'planck:forms', 'planck:argument-types', 'planck:rayleigh-jeans', 'spectrum.to:refused-tail', 'same-numbers:mixed-units', 'wien', 'stefan-boltzmann', 'vega', 'spectrum.to:edit-in-place', 'spectrum.bin:unit', 'unit:aliases']
+                    'planck:radiance', 'planck:exitance', 'planck:forms', 'planck:argument-types', 'planck:rayleigh-jeans', 'spectrum.to:refused-tail', 'same-numbers:mixed-units', 'wien', 'stefan-boltzmann', 'vega', 'spectrum.to:edit-in-place', 'spectrum.bin:unit', 'unit:aliases', 'spectrum:narrow-columns']
 REQUIRED_ANCHORS = ['anchor:Spectrum.to', 'anchor:planck_radiance', 'anchor:planck_exitance', 'anchor:vegaflux',
                     'anchor:Photlam.to', 'anchor:Micron.to']
 REQUIRED_ORACLES = ['wave:compose', 'wave:identity', 'wave:roundtrip', 'wave=si', 'flux:compose', 'flux:identity',
@@ -277,6 +277,43 @@ def workload(ctx, lentil):
             except Exception as e:
                 ctx.check(False, 'to:values', f'unit-alias|{what}|raises={type(e).__name__}',
                           f'Spectrum.{what} refuses the unit name {alias!r} that Unit() accepts: {e}', desc)
+    # ---- wavelength / value columns held in single or half precision (FITS 'E' columns): the same numbers as doubles, so the same
+    # spectrum in every unit - conversions, samples AT the end wavelengths expressed in another unit, integrals, flux round trips ----
+    for i in range(max(10, n // 3)):
+        npts = int(rng.integers(3, 12))
+        u0, u1 = sm.WAVE_CANON[int(rng.integers(0, 4))], sm.WAVE_CANON[int(rng.integers(0, 4))]
+        wdt = [np.float32, np.float32, np.float16][i % 3]
+        # wavelengths that are exact in the narrow type (whole nanometres / quarter micrometres ...)
+        base = {'nm': (400, 50), 'um': (0.5, 0.125), 'm': (2.0 ** -21, 2.0 ** -24), 'angstrom': (4000, 250)}[u0]
+        w_n = (base[0] + base[1] * np.arange(npts)).astype(wdt)
+        v_n = (rng.integers(1, 200, size=npts) / 8.0).astype(wdt if i % 2 else float)
+        vu = [None, 'photlam', 'wlam', 'flam'][i % 4]
+        desc = {'narrow-columns': [np.dtype(wdt).name, str(v_n.dtype)], 'units': [u0, u1], 'valueunit': vu, 'n': npts}
+        ctx.case(desc, ['spectrum:narrow-columns'])
+        try:
+            a = R.Spectrum(w_n.copy(), v_n.copy(), waveunit=u0, valueunit=vu)
+            b = R.Spectrum(w_n.astype(float), v_n.astype(float), waveunit=u0, valueunit=vu)
+            q = np.asarray(b.wave, float) * sm.wave_factor(u0, u1)          # its own wavelengths, end samples included, in u1
+            sa, sb = np.asarray(a.sample(q, waveunit=u1), float), np.asarray(b.sample(q, waveunit=u1), float)
+            ctx.close('to:values', sa, sb, 1e-12, 'narrow-columns|sample-other-unit',
+                      'a spectrum whose columns are held in single / half precision samples differently (end samples lost?) from the same '
+                      'numbers held as doubles', desc, scale=float(np.max(np.abs(sb))) + 1e-300)
+            a.to(u1); b.to(u1)
+            ctx.close('to:values', np.r_[np.asarray(a.wave, float), np.asarray(a.value, float)], np.r_[np.asarray(b.wave, float), np.asarray(b.value, float)],
+                      1e-13, 'narrow-columns|to', 'Spectrum.to on single / half precision columns differs from the conversion of the same numbers as doubles',
+                      desc, scale=1.0 if False else float(np.max(np.abs(np.r_[np.asarray(b.wave, float), np.asarray(b.value, float)]))))
+            Ia, Ib = float(a.integrate(method='trapz')), float(b.integrate(method='trapz'))
+            ctx.close('to:integral', np.array([Ia]), np.array([Ib]), 1e-12, 'narrow-columns|integral',
+                      'the integral of a converted single / half precision spectrum differs from that of the same numbers as doubles', desc,
+                      scale=abs(Ib) + 1e-300)
+            if vu is not None:
+                other = [x for x in sm.FLUX if x != vu][i % 2]
+                a.to(other); a.to(vu); b.to(other); b.to(vu)
+                ctx.close('to:flux-roundtrip', np.asarray(a.value, float), np.asarray(b.value, float), 1e-12, 'narrow-columns|flux-roundtrip',
+                          'a flux-unit round trip of single / half precision values differs from that of the same numbers as doubles', desc,
+                          scale=float(np.max(np.abs(np.asarray(b.value, float)))) + 1e-300)
+        except Exception as e:
+            ctx.check(False, 'to:values', f'narrow-columns|raises={type(e).__name__}', str(e), desc)
     # ---- convert, edit the arrays in place, convert straight back: the spectrum as it is NOW is what is converted ------------------
     for i in range(max(10, n // 3)):
         npts = int(rng.integers(3, 20))
